@@ -82,11 +82,31 @@ func (s *State) DumpState() {
 	s.cache.DumpState()
 }
 
+// isTombstone tells whether an overlay value is the deletion marker.
+func isTombstone(value []byte) bool {
+	return bytes.Equal(value, []byte(TOMBSTONE))
+}
+
+// rawCache returns the block cache without its gas metering wrapper.
+func (s *State) rawCache() Store {
+	switch c := s.cache.(type) {
+	case *GasStore:
+		return c.SessionedDirectStorage
+	case *NoGasStore:
+		return c.SessionedDirectStorage
+	}
+	return s.cache
+}
+
 func (s *State) Get(key StoreKey) ([]byte, error) {
 	if s.txSession != nil {
 		// Get the txSession first
 		result, err := s.txSession.Get(key)
 		if err == nil {
+			if isTombstone(result) {
+				// deleted in this session: reads as absent, like a missing key in the tree
+				return nil, nil
+			}
 			// if got result, return directly
 			return result, err
 		}
@@ -95,6 +115,10 @@ func (s *State) Get(key StoreKey) ([]byte, error) {
 	// Get the cache first
 	result, err := s.cache.Get(key)
 	if err == nil {
+		if isTombstone(result) {
+			// deleted in this block: reads as absent, like a missing key in the tree
+			return nil, nil
+		}
 		// if got result, return directly
 		return result, err
 	}
@@ -118,7 +142,9 @@ func (s *State) Exists(key StoreKey) bool {
 		// check existence in txSession
 		exist := s.txSession.Exists(key)
 		if exist {
-			return exist
+			// an entry that is a deletion marker means the key is gone
+			value, _ := s.txSession.Get(key)
+			return !isTombstone(value)
 		}
 	}
 
@@ -129,7 +155,9 @@ func (s *State) Exists(key StoreKey) bool {
 		return s.cs.Exists(key)
 	}
 
-	return exist
+	// an entry that is a deletion marker means the key is gone (read without charging gas again)
+	value, _ := s.rawCache().Get(key)
+	return !isTombstone(value)
 }
 
 func (s *State) Delete(key StoreKey) (bool, error) {
